@@ -398,6 +398,20 @@ fn do_alloc(mid: usize, req: AllocReq) -> Option<(u64, usize)> {
             );
         }
     }
+    // ---- C07/C08: memory handed out by the allocator holds no valid-object bits
+    #[cfg(any(feature = "var_a", feature = "var_b"))]
+    for i in (0..size.min(4096)).step_by(8) {
+        if let Some(r) = mm::is_mmtk_object(addr.add(i)) {
+            violation(
+                "C07",
+                "stale-vo-bit-in-fresh-memory",
+                format!(
+                    "alloc(size {}, sem {}) returned {:#x}; is_mmtk_object({:#x}) = {:?} inside the fresh memory (a reclaimed object is still reported as valid)",
+                    size, sem, a, a + i, r
+                ),
+            );
+        }
+    }
     // ---- C02 + model
     let flags = (if align == 16 { obj::FLAG_ALIGN16 } else { 0 }) | (if offset == 8 { obj::FLAG_OFFSET8 } else { 0 });
     let (id, h) = with_world(|w| {
